@@ -212,7 +212,7 @@ var c03Methods = []uint16{wire.MethodAllocate, wire.MethodRefresh, wire.MethodCr
 
 var c03Defects = []string{
 	"no-mi", "wrong-password", "hmac-truncated", "hmac-bitflip", "hmac-extended", "unknown-user", "other-user", "no-username", "no-realm",
-	"no-nonce", "random-nonce", "mutated-nonce", "foreign-nonce", "expired-nonce", "wrong-realm", "empty-user", "guessable-key",
+	"no-nonce", "random-nonce", "mutated-nonce", "foreign-nonce", "expired-nonce", "wrong-realm", "empty-user", "guessable-key", "key-of-another-realm",
 }
 
 func runC03A(t *testing.T, rng *rand.Rand, rec *sim.Rec, tier string, caseNo int) {
@@ -220,8 +220,15 @@ func runC03A(t *testing.T, rng *rand.Rand, rec *sim.Rec, tier string, caseNo int
 	// an operator whose auth handler hands out no user ids (every allocation then belongs to ""):
 	// credentials are checked exactly as otherwise, only the per-user ownership rule has no meaning
 	emptyUID := caseNo%5 == 1
+	// the operator's realm as configured - with capitals and a blank in one case in four: it is
+	// what the challenge must announce, letter for letter (keys are derived from it)
+	realmCfg := "verif.test"
+	if caseNo%4 == 3 {
+		realmCfg = pick(rng, []string{"Verif.Test", "VERIF.TEST", "Verif Test ", " verif.test"})
+		rec.FP("realm-with-capitals-or-blanks")
+	}
 	cfg := sim.Config{
-		Realm: "verif.test", Users: map[string]string{"alice": "pw-a", "bob": "pw-b"}, NoAuth: noAuth, EmptyUserID: emptyUID,
+		Realm: realmCfg, Users: map[string]string{"alice": "pw-a", "bob": "pw-b"}, NoAuth: noAuth, EmptyUserID: emptyUID,
 		Lifetime: 26 * time.Hour, PermTimeout: 26 * time.Hour, ChanTimeout: 26 * time.Hour,
 		UDPListeners: []*net.UDPAddr{{IP: sim.ServerIP4, Port: 3478}},
 		TCPListeners: []*net.TCPAddr{{IP: sim.ServerIP4, Port: 3478}},
@@ -248,7 +255,7 @@ func runC03A(t *testing.T, rng *rand.Rand, rec *sim.Rec, tier string, caseNo int
 	p1, _ := w.NewPeer("p1", net.IPv4(10, 2, 0, 1).To4(), 7000)
 	p2, _ := w.NewPeer("p2", net.IPv4(10, 2, 0, 2).To4(), 7001)
 	// a second, independent server instance mints "foreign" nonces
-	w2, err := sim.NewWorld(sim.Config{Realm: "verif.test", Users: cfg.Users, UDPListeners: []*net.UDPAddr{{IP: sim.ServerIP4, Port: 3478}}}, sim.NewRec("C03"), rng, true)
+	w2, err := sim.NewWorld(sim.Config{Realm: realmCfg, Users: cfg.Users, UDPListeners: []*net.UDPAddr{{IP: sim.ServerIP4, Port: 3478}}}, sim.NewRec("C03"), rng, true)
 	if err != nil {
 		t.Fatal(err)
 	}
@@ -268,7 +275,7 @@ func runC03A(t *testing.T, rng *rand.Rand, rec *sim.Rec, tier string, caseNo int
 		before := x.digest()
 		for _, method := range c03Methods {
 			tid := w.NewTID()
-			raw := c03Build(method, tid, x.attrsFor(method, p1, 0x4000), c03cred{user: "alice", realm: "verif.test", pass: "pw-a", nonce: foreignNonce})
+			raw := c03Build(method, tid, x.attrsFor(method, p1, 0x4000), c03cred{user: "alice", realm: realmCfg, pass: "pw-a", nonce: foreignNonce})
 			r := x.send(alice, method, raw, tid)
 			rec.FP("noauth/m%x/%d", method, codeOfMsg(r))
 			if r != nil && r.Class == wire.ClassSuccess {
@@ -314,6 +321,11 @@ func runC03A(t *testing.T, rng *rand.Rand, rec *sim.Rec, tier string, caseNo int
 		}
 		nonce, realm, ok := x.challenge(c, method)
 		if !ok {
+			return
+		}
+		if realm != realmCfg {
+			rec.Violate("auth-challenge-unusable", "realm", "%s: the 401 challenge announces realm %q, the server is configured with %q (a key derived from the announced realm is not the operator's)", c.Name, realm, realmCfg)
+
 			return
 		}
 		cr := c03cred{user: "alice", realm: realm, pass: "pw-a", nonce: nonce}
@@ -378,6 +390,12 @@ func runC03A(t *testing.T, rng *rand.Rand, rec *sim.Rec, tier string, caseNo int
 			valid = true             // ...so this is a sound credential for (alice, other.realm) as far as the statement goes
 		case "empty-user":
 			cr.user = ""
+		case "key-of-another-realm":
+			// the request presents one realm and is signed with the key of the same user in another
+			// (the realm the server is configured with): the operator's handler is asked about the
+			// presented realm, and its key for that realm is a different one
+			cr.realm = "other.realm"
+			cr.rawKey = wire.LongTermKey(cr.user, realmCfg, cr.pass)
 		}
 		before := x.digest()
 		tid := w.NewTID()
